@@ -76,6 +76,11 @@ def generate(tier, rng):
                     e = list(rng.choice(cur_entries))
                     steps.append({"op": "delete", "e": e})
             cases.append({"op": "hist", "tier": t, "args": {"steps": steps}, "scale": sc})
+    # collisions are decided by exact comparison: two times one ulp apart do not collide
+    elig = [c for c in cases if c["op"] == "insert" and gen.near_ok(c["tier"]["entries"], [c["args"]["e"]])]
+    for c in rng.sample(elig, min(len(elig), 800 if tier == "quick" else 20000)):
+        cases.append(dict(c, scale=["near", 1]))
+
     return cases
 
 
